@@ -79,6 +79,8 @@ def shapes(D):
     out.append(('assert-chain', ('local', [('f', [('n', None)], ('assert', ('binary', 'ge', V('n'), N(0)), None,
                                                                  ('if', is0('n'), N(0), ('binary', 'add', N(1), call(V('f'), dec('n'))))))],
                                  call(V('f'), N(D)))))
+    # callbacks of std.filter / std.foldl / std.flatMap / ... (frames pushed per element up front, or per level)
+    out.extend(G.std_shapes(D))
     return out
 
 
@@ -201,6 +203,10 @@ def run(rep):
             elif ' analyze ' not in a and not (b.startswith('unsupported') or b.startswith('gas')) and C.norm(a) != C.norm(b):
                 rep.disagreement('c10g:%d:%s' % (s, src), 'outcome at this limit differs from the model',
                                  {'src': src, 'sexp': G.to_sexp(progs[i]), 'max_stack': s, 'impl': a, 'model': b})
+    # directed cases for the callback builtins under small limits (frames pushed per element up front / per level)
+    std_progs = G.std_cases(rng, 300 if quick else 6000)
+    for s in [3, 5, 8, 12]:
+        C.compare_cases(rep, std_progs, 'c10std:%d:' % s, s, False, 'callback builtin: outcome at this limit differs from the model (frame accounting)')
     for i, rows in res.items():
         ok = [(s, a) for s, a in rows if classify(a) == 'ok']
         if ok and any(C.norm(a) != C.norm(ok[0][1]) for s, a in rows if s >= ok[0][0]):
